@@ -67,6 +67,11 @@ class NetSession:
         self.names = []
         self.clocks = []
         self.arrivals = []   # per node: list of (due, pipe, payload)
+        # implementation-only environment (no Lean twin; lines `net n 2 ...`): packets from a transmitter outside the
+        # session that arrive ON THE AIR at a node's radio at a scripted time - while the node is inside a blocking call,
+        # say - and go through the radio's own reception rules (address match, FIFO room, auto-ack): (due, address, data)
+        self.air_arrivals = {}
+        self.acklog = []     # radio-level acknowledgements sent for such packets: "<node>:<address hex>"
         self.cur = 0
         self.active = []
         self.air_seen = 0
@@ -82,6 +87,14 @@ class NetSession:
             while arr and arr[0][0] <= w.clock:
                 _, pipe, data = arr.pop(0)
                 w.inject(node._rf24_rid, pipe, data)
+            air = self.air_arrivals.get(idx, [])
+            while air and air[0][0] <= w.clock:
+                _, addr, data = air.pop(0)
+                r = w.radios[node._rf24_rid]
+                k = {"ch": r.rf_ch, "rate": r.rate(), "crc": r.crc_len(), "esb": True, "dpl": True, "addr": bytes(addr),
+                     "pid": 3, "noack": False, "data": bytes(data)}
+                if r.receive(k) is not None:
+                    self.acklog.append(f"{self.names[idx]}:{bytes(addr).hex()}")
             if self.closed:
                 self._run_others()
             return real_read(length)
@@ -289,6 +302,12 @@ class NetSession:
             if toks[1] == "arrive":
                 i = self.names.index(toks[2])
                 self.arrivals[i].append((self.clocks[i] + int(toks[3]), int(toks[4]), unhex(toks[5])))
+            elif toks[1] == "arrive_air":
+                i = self.names.index(toks[2])
+                self.air_arrivals.setdefault(i, []).append((self.clocks[i] + int(toks[3]), unhex(toks[4]), unhex(toks[5])))
+            elif toks[1] == "acklog":
+                out, self.acklog = ",".join(self.acklog) or "-", []
+                return out + " ~ -"
             elif toks[1] == "faults":
                 w.faults = [] if toks[2] == "-" else list(toks[2])
             elif toks[1] == "inject":
